@@ -4,18 +4,70 @@
 // only comments; it is never compiled into the package.
 package obfs4
 
+// ---- representation invariants of an established connection ----
+//@ pred rxInv(conn) := conn != nil && conn.Conn != nil
+//@     && conn.receiveBuffer != nil && whole(conn.receiveBuffer) && conn.receiveDecodedBuffer != nil && whole(conn.receiveDecodedBuffer)
+//@     && conn.receiveBuffer != conn.receiveDecodedBuffer
+//@     && conn.decoder != nil && decInv(conn.decoder)
+//@     && len(conn.readBuffer) == 23168 && conn.readBuffer != nil
+//@     && outside(conn.readBuffer, conn) && outside(conn.readBuffer, conn.decoder) && outside(conn.readBuffer, conn.decoder.drbg) && outside(conn.readBuffer, conn.decoder.drbg.sip)
+//@     && outside(conn.readBuffer, conn.receiveBuffer) && outside(conn.readBuffer, conn.receiveDecodedBuffer)
+//@     && outside(conn.Conn, conn) && outside(conn.Conn, conn.decoder) && outside(conn.Conn, conn.receiveBuffer) && outside(conn.Conn, conn.receiveDecodedBuffer)
+// scalar part of the distribution invariant (the quantified table invariant wdInv is
+// established by probdist.New / Reset and only needed where Sample is called)
+//@ pred distOK(conn) := conn.lenDist != nil && conn.lenDist.minValue == 0 && conn.lenDist.maxValue == 1448
+//@     && 0 <= conn.iatMode && conn.iatMode <= 2 && (conn.iatMode != 0 ==> conn.iatDist != nil)
+//@     && (conn.iatDist != nil ==> conn.iatDist.minValue == 0 && conn.iatDist.maxValue == 100 && conn.iatDist != conn.lenDist)
+//@ pred txInv(conn) := conn != nil && conn.Conn != nil && conn.encoder != nil && encInv(conn.encoder)
+
 //@ func (*obfs4Conn).makePacket(conn, w, pktType, data, padLen) (err)
-//@   serves C09 C10
-//@   requires len(data) + padLen <= 1427
-//@   modifies w.*, conn.encoder.*
+//@   serves C09 C10 C01 C06
+//@   requires len(data) + padLen <= 1427 && txInv(conn) && outside(w, conn) && outside(w, conn.encoder) && outside(w, conn.encoder.drbg) && outside(w, conn.encoder.drbg.sip)
+//@   modifies w.*, conn.encoder.nonce.counter, conn.encoder.drbg.sip.absorbed, conn.encoder.drbg.ofb
+//@   ghost ctr0 := conn.encoder.nonce.counter
+//@   ghost abs0 := conn.encoder.drbg.sip.absorbed
+//@   ghost ofb0 := seq(conn.encoder.drbg.ofb)
+//@   ghost data0 := seq(data)
 //@   ensures [C09:frame_le_mss] err == nil && typeis(w, "*bytes.Buffer") ==> len(w.(*bytes.Buffer).content) == len(old(w.(*bytes.Buffer).content)) + 21 + len(data) + padLen
+//@   ensures [C06:packet_layout] err == nil && typeis(w, "*bytes.Buffer") ==> sub(w.(*bytes.Buffer).content, len(old(w.(*bytes.Buffer).content)) + 2, len(w.(*bytes.Buffer).content))
+//@        == SEAL(cat(bbyte(pktType), be16(len(data)), data0, zeros(padLen)), cat(seq(conn.encoder.nonce.prefix), be64(ctr0)), seq(conn.encoder.key))
+//@   ensures [C01:one_frame_per_packet] err == nil ==> conn.encoder.nonce.counter == (ctr0 + 1) % 18446744073709551616 && conn.encoder.drbg.sip.absorbed == cat(abs0, ofb0)
+//@   ensures [C01:nothing_written_on_error] err != nil && typeis(w, "*bytes.Buffer") ==> unchanged(w.(*bytes.Buffer).content)
+//@   ensures txInv(conn)
 
 //@ func (*obfs4Conn).padBurst(conn, burst, toPadTo) (err)
-//@   serves C09 C10
-//@   requires 0 <= toPadTo && toPadTo <= 1448
-//@   modifies burst.*, conn.encoder.*
+//@   serves C09 C10 C01
+//@   requires 0 <= toPadTo && toPadTo <= 1448 && txInv(conn) && burst != nil && whole(burst) && outside(burst, conn.encoder) && outside(burst, conn.encoder.drbg) && outside(burst, conn.encoder.drbg.sip)
+//@   modifies burst.*, conn.encoder.nonce.counter, conn.encoder.drbg.sip.absorbed, conn.encoder.drbg.ofb
 //@   ghost L0 := len(burst.content)
 //@   ghost T := L0 % 1448
 //@   ghost need := ite(toPadTo >= T, toPadTo - T, 1448 - T + toPadTo)
 //@   ensures [C09:tail_on_target] err == nil ==> (len(burst.content) % 1448 == toPadTo % 1448 || (0 < need && need <= 21 && len(burst.content) % 1448 == (toPadTo + 21) % 1448))
 //@   ensures [C09:added] err == nil ==> (need == 0 ==> len(burst.content) == L0) && (0 < need && need < 21 ==> len(burst.content) - L0 == 1448 + 21 + need) && (need == 21 ==> len(burst.content) - L0 == 21 || len(burst.content) - L0 == 1448 + 42) && (need > 21 ==> len(burst.content) - L0 == need)
+//@   ensures [C09:grows] len(burst.content) >= L0
+//@   ensures txInv(conn)
+
+//@ func (*obfs4Conn).readPackets(conn) (err)
+//@   serves C01 C05 C09 C10
+//@   requires rxInv(conn) && distOK(conn)
+//@   requires [no_block_with_frame_buffered] needMore(conn.decoder, conn.receiveBuffer)
+//@   modifies conn.receiveBuffer.*, conn.receiveDecodedBuffer.*, conn.decoder.nextLength, conn.decoder.nextLengthInvalid, conn.decoder.nextNonce, conn.decoder.nonce.counter, conn.decoder.drbg.sip.absorbed, conn.decoder.drbg.ofb
+//@   modifies elems(conn.readBuffer), conn.Conn.rd, conn.Conn.nreads, blocked
+//@   modifies conn.lenDist.values, conn.lenDist.weights, conn.lenDist.alias, conn.lenDist.prob, conn.iatDist.values, conn.iatDist.weights, conn.iatDist.alias, conn.iatDist.prob
+//@   ghost D0 := conn.receiveDecodedBuffer.content
+//@   ghost R0 := conn.receiveBuffer.content
+//@   loop 1 invariant rxInv(conn) && distOK(conn)
+//@   loop 1 invariant [C10:rx_bound] len(conn.receiveBuffer.content) <= len(R0) + 23168
+//@   loop 1 invariant [C05:decoded_only_grows] len(conn.receiveDecodedBuffer.content) >= len(D0) && sub(conn.receiveDecodedBuffer.content, 0, len(D0)) == D0
+//@   loop 1 invariant [C10:decoded_bound] len(conn.receiveDecodedBuffer.content) - len(D0) <= (len(R0) + 23168) - len(conn.receiveBuffer.content)
+//@   loop 1 invariant err == nil
+//@   loop 1 invariant blocked == old(blocked) + 1 && conn.Conn.nreads == old(conn.Conn.nreads) + 1
+//@   loop 1 decreases len(conn.receiveBuffer.content)
+//@   assert_at bytes.Buffer).Write#2 [C05:validated_before_surface] arg0 == conn.receiveDecodedBuffer && pktType == 0 && err == nil && base(arg1) == &decoded && offset(arg1) == 3 && len(arg1) == payloadLen && payloadLen <= decLen - 3 && payloadLen > 0
+//@   assert_at WeightedDist).Reset [C09:client_adopts_seed] !conn.isServer && pktType == 1 && len(payload) == 24
+//@   ensures [C01:no_stranded_frame] err == nil || err == framing.ErrAgain ==> needMore(conn.decoder, conn.receiveBuffer)
+//@   ensures [C10:rx_bound] len(conn.receiveBuffer.content) <= len(R0) + 23168
+//@   ensures [C05:decoded_only_grows] len(conn.receiveDecodedBuffer.content) >= len(D0) && sub(conn.receiveDecodedBuffer.content, 0, len(D0)) == D0
+//@   ensures [C10:decoded_bound] len(conn.receiveDecodedBuffer.content) - len(D0) <= (len(R0) + 23168) - len(conn.receiveBuffer.content)
+//@   ensures [C01:one_network_read] blocked == old(blocked) + 1 && conn.Conn.nreads == old(conn.Conn.nreads) + 1
+//@   ensures rxInv(conn) && distOK(conn)
